@@ -63,6 +63,10 @@ fn build_reference(pat: &str, mode: Mode) -> Option<regex::bytes::Regex> {
 /// "search resumes on a slice of the haystack"; `inverted_resume_at_line_end`
 /// the switch of finding `inverted-multiline-resumes-at-line-end`.
 fn reference_hits(re: &regex::bytes::Regex, input: &[u8], lines: &[(usize, usize)], line_resume: bool) -> Vec<bool> {
+    reference_hits_term(re, input, lines, line_resume, b'\n')
+}
+
+fn reference_hits_term(re: &regex::bytes::Regex, input: &[u8], lines: &[(usize, usize)], line_resume: bool, term: u8) -> Vec<bool> {
     let mut hits = vec![false; lines.len()];
     let mut pos = 0usize;
     while pos <= input.len() {
@@ -71,7 +75,7 @@ fn reference_hits(re: &regex::bytes::Regex, input: &[u8], lines: &[(usize, usize
         let mut last_line_end = me;
         for (i, &(s, e)) in lines.iter().enumerate() {
             let hit = if ms == me {
-                (s <= ms && ms < e) || (ms == e && e == input.len() && input.last() != Some(&b'\n'))
+                (s <= ms && ms < e) || (ms == e && e == input.len() && input.last() != Some(&term))
             } else {
                 ms < e && s < me
             };
@@ -95,6 +99,113 @@ fn reference_hits(re: &regex::bytes::Regex, input: &[u8], lines: &[(usize, usize
         }
     }
     hits
+}
+
+/// NUL-terminated records (`rg -U --null-data`): patterns that can match a
+/// NUL (and, some of them, no `\n`) x every input over {a, b, NUL, \n} up to
+/// a length bound x invert x slice / fragmented reader. Reference: the regex
+/// crate over the whole input, records split at NUL; the matched (or, inverted,
+/// the other) records with their numbers and offsets.
+fn nul_layer(tier: Tier) -> (u64, u64, Vec<(Option<&'static str>, String, serde_json::Value)>) {
+    use grep_matcher::LineTerminator;
+    let pats = ["a\\x00b", "a\\x00", "\\x00b", "[\\x00]", "a[\\x00-\\x08]+b", "a(?s:.)b", "a\\x00b|b", "b\\x00?a", "(?-u:a\\x00)b?", "a\\x00\\x00", "\\x00$", "^\\x00?b"];
+    let al = [b'a', b'b', 0u8, b'\n'];
+    let maxlen = tier.pick(5, 7);
+    let n = seq_count(al.len(), maxlen);
+    let mut idx = vec![];
+    let inputs: Vec<Vec<u8>> = (0..n)
+        .map(|i| {
+            seq_decode(al.len(), i, &mut idx);
+            idx.iter().map(|&k| al[k]).collect()
+        })
+        .collect();
+    let (mut runs, mut spanning, mut known) = (0u64, 0u64, 0u64);
+    let mut disc = vec![];
+    for pat in pats {
+        let pat = pat.replace("\\\\", "\\");
+        // the matcher as `rg -U --null-data` builds it
+        let mut b = RegexMatcherBuilder::new();
+        b.multi_line(true).unicode(true).octal(false);
+        let Ok(m) = b.build(&pat) else { continue };
+        let Ok(re) = regex::bytes::RegexBuilder::new(&pat).multi_line(true).build() else { continue };
+        for invert in [false, true] {
+            let mut sb = grep_searcher::SearcherBuilder::new();
+            sb.line_terminator(LineTerminator::byte(0)).multi_line(true).line_number(true).invert_match(invert).binary_detection(grep_searcher::BinaryDetection::none());
+            let mut searcher = sb.build();
+            for input in inputs.iter() {
+                let recs = split_lines(input, 0);
+                // records overlapped by the successive matches over the whole input
+                let mut hits = vec![false; recs.len()];
+                let mut pos = 0usize;
+                while pos <= input.len() {
+                    let Some(mm) = re.find_at(input, pos) else { break };
+                    let (ms, me) = (mm.start(), mm.end());
+                    let mut touched = 0;
+                    for (i, &(s, e)) in recs.iter().enumerate() {
+                        let hit = if ms == me { (s <= ms && ms < e) || (ms == e && e == input.len() && input.last() != Some(&0)) } else { ms < e && s < me };
+                        if hit {
+                            hits[i] = true;
+                            touched += 1;
+                        }
+                    }
+                    if touched > 1 {
+                        spanning += 1;
+                    }
+                    pos = if ms == me { me + 1 } else { me };
+                }
+                let listing = |hits: &[bool]| -> Vec<(Vec<u8>, u64, u64)> {
+                    recs.iter().enumerate().filter(|(i, _)| hits[*i] != invert).map(|(i, &(s, e))| (input[s..e].to_vec(), i as u64 + 1, s as u64)).collect()
+                };
+                let want = listing(&hits);
+                // counterfactual of known finding
+                // `inverted-multiline-resumes-at-line-end`
+                let want_known = if invert { Some(listing(&reference_hits_term(&re, input, &recs, true, 0))) } else { None };
+                for st in [0, 1] {
+                    let mut rec = Rec::new();
+                    let res = if st == 0 {
+                        searcher.search_slice(&m, input, &mut rec)
+                    } else {
+                        let sizes = [1usize, 2, 1, 3];
+                        searcher.search_reader(&m, FragReader::new(input, &sizes, 2), &mut rec)
+                    };
+                    runs += 1;
+                    let mut got: Vec<(Vec<u8>, u64, u64)> = vec![];
+                    for e in rec.events.iter() {
+                        if let Ev::Match { bytes, line, off } = e {
+                            for (k, &(s, en)) in split_lines(bytes, 0).iter().enumerate() {
+                                got.push((bytes[s..en].to_vec(), line.unwrap_or(0) + k as u64, off + s as u64));
+                            }
+                        }
+                    }
+                    if res.is_ok() && got != want && want_known.as_ref() == Some(&got) {
+                        known += 1;
+                        if known <= 2 {
+                            disc.push((
+                                Some("inverted-multiline-resumes-at-line-end"),
+                                format!("null-data | {} | -v {} | {}", pat, if st == 0 { "slice" } else { "reader" }, esc(input)),
+                                json!({"kind":"null-data-multiline","pattern":pat,"invert":invert,"input":esc(input)}),
+                            ));
+                        }
+                        continue;
+                    }
+                    if (res.is_err() || got != want) && disc.len() < 30 {
+                        // the inverted search's open finding (resumption at the end of the
+                        // matched record) is not attributed here: a discrepancy in this
+                        // layer is reported as it is
+                        disc.push((
+                            None,
+                            format!("null-data | {} | {}{} | {}", pat, if invert { "-v " } else { "" }, if st == 0 { "slice" } else { "reader" }, esc(input)),
+                            json!({"kind":"null-data-multiline","pattern":pat,"invert":invert,"strategy":if st == 0 { "slice" } else { "reader" },"input":esc(input),
+                                   "reported":got.iter().map(|(b, l, o)| format!("{}#{}@{}", esc(b), l, o)).collect::<Vec<_>>(),
+                                   "expected":want.iter().map(|(b, l, o)| format!("{}#{}@{}", esc(b), l, o)).collect::<Vec<_>>(),
+                                   "error":res.err().map(|e| e.to_string())}),
+                        ));
+                    }
+                }
+            }
+        }
+    }
+    (runs, spanning, disc)
 }
 
 /// Flatten multi-line Match events into one event per line.
@@ -381,6 +492,15 @@ pub fn run(args: &Args) -> ! {
     if total.multi_strategy_runs == 0 || total.line_strategy_runs == 0 || total.spanning == 0 {
         machinery_error("C13: a mandatory coverage counter is zero");
     }
+    let nul = nul_layer(tier);
+    for (f, k, v) in nul.2.iter() {
+        verdict.discrepancy(*f, k, v.clone());
+    }
+    if nul.0 == 0 || nul.1 == 0 {
+        machinery_error("C13: the NUL-record layer is vacuous");
+    }
+    ev.set("null_data_runs", nul.0);
+    ev.set("null_data_matches_spanning_records", nul.1);
     ev.set("evaluations", total.runs);
     ev.set("distinct_nontrivial", total.nontrivial);
     ev.set("exhaustive", true);
